@@ -5,19 +5,31 @@ from ..excflow import ALL, Flow, caught, handler_types
 from ..model import AnalysisError, attr_chain, call_name, if_chain, stmts_in
 
 EXPLANATION = (
-    "Static rules over SVG.parse and the value parsers it reaches (no execution). R10.1 exception escape: for every element "
-    "construction site in SVG.parse (SVG, Group for g and defs, ClipPath, Use, Pattern, the eight shape kinds, the unknown-"
-    "element fallback, Text, Desc, Title) and every render/reify/parse call on the new element, the set of exception types "
-    "that can leave the callee closure is computed from confirmed source kinds (explicit raise; float()/int() of document "
-    "text not proved to be in the converter's grammar, regex group languages decided as automata; constant subscripts of "
-    "findall/split results; star-calls with data-dependent arity; the viewBox divisions), propagated over resolved calls "
-    "(constructor chains, Base.m(self), self.m by MRO in the site's class, unique method names), subtracted at try/except, "
-    "and finally at the handlers that enclose the site in SVG.parse. Required in the default error mode: nothing escapes. "
-    "R10.2 reference cycles: the recursive expansion of `use` references looks its target up through document ids; the "
-    "recursive call must be control-dependent on a test that the id is not already being expanded. R10.3: every return of "
-    "SVG.parse yields the root (a nested element may be returned only under a guard that no root exists yet). R10.4: the "
-    "unresolved-reference handler (missing id) is present. Not decided: equality of sibling geometry with and without the "
-    "faulty element (values); exceptions from interpreter internals."
+    "Static rules over SVG.parse and the value parsers it reaches (no execution). R10.1 exception escape: for every element"
+    " construction site in SVG.parse (SVG, Group for g and defs, ClipPath, Use, Pattern, the eight shape kinds, the "
+    "unknown-element fallback, Text, Desc, Title) and every render/reify/parse call on the new element, the set of "
+    "exception types that can leave the callee closure is computed from confirmed source kinds (explicit raise; "
+    "float()/int() of document text not proved to be in the converter's grammar, regex group languages decided as automata;"
+    " constant subscripts of findall/split results; star-calls with data-dependent arity; the viewBox divisions; "
+    "int()/round() of a float that may be infinite - float('1e999') is inf - unless clamped on both sides; arithmetic or "
+    "min/max on a field of a locally built object whose constructor may leave it None, without a None test; stores to a "
+    "property run its setter), propagated over resolved calls (constructor chains, Base.m(self), self.m by MRO in the "
+    "site's class, unique method names), subtracted at try/except, and finally at the handlers that enclose the site in "
+    "SVG.parse. Required in the default error mode: nothing escapes. R10.2 reference cycles: the recursive expansion of "
+    "`use` references looks its target up through document ids; the recursive call must be control-dependent on a test that"
+    " the id is not already being expanded. R10.3: every return of SVG.parse yields the root (something else only where no "
+    "root exists yet), and the last `return <root>` is dominated by a None test: a document whose outermost element is "
+    "skipped must still give a tree. R10.4: the unresolved-reference handler (missing id) is present. R10.6 (sibling cross-"
+    "check of the render methods): the viewport size read with kwargs.get() is optional and may be an unresolved Length - "
+    "every render hands it to Length.value(relative_length=...), which tolerates that; arithmetic on it needs a dominating "
+    "isinstance(x, (int, float)) test or a handler for TypeError and ValueError. R10.7: members that only SVG defines "
+    "(objects, get_element_by_url, ...) are used on the root only under isinstance(root, SVG) or except AttributeError - "
+    "the first element becomes the root whatever it is. R10.8: render() may leave a length unresolved (Length.value returns"
+    " the Length: C12 R12.2) and Length + number raises ValueError then; every reify statement that adds to such a field or"
+    " maps points through the shape's matrix (whose e, f Matrix.render resolves the same way), and every such matrix "
+    "application reachable from the other calls SVG.parse makes on a new element (render, is_degenerate and what they reach"
+    " through self), must be dominated by a not-a-Length test or sit in a try that takes ValueError. Not decided: equality "
+    "of sibling geometry with and without the faulty element (values); exceptions from interpreter internals."
 )
 TECHNIQUE = (
     "static analysis (no execution): exception-escape analysis from every element construction site (may-raise sets propagated over the call graph, subtracted at handlers); recursion guard check; push/pop path counting; result-is-root"
@@ -27,7 +39,7 @@ ASSUMPTIONS = [
     "The XML parser itself (iterparse) is outside the module: malformed XML is outside the property (well-formed documents).",
     "on_error='ignore' (default mode) is analysed; the explicit re-raise under on_error == 'raise' is not an escape in that mode.",
 ]
-FLOORS = {"R10.1": 25, "R10.2": 1, "R10.3": 2}
+FLOORS = {"R10.1": 25, "R10.2": 1, "R10.3": 2, "R10.6": 8, "R10.7": 4, "R10.8": 7}
 
 ELEMENTS = ["SVG", "Group", "ClipPath", "Use", "Pattern", "Path", "Circle", "Ellipse", "SimpleLine", "Polyline", "Polygon", "Rect", "Image", "SVGElement", "Text", "Desc", "Title"]
 
@@ -38,10 +50,16 @@ def run(ctx):
     ctx.rule("R10.3", "every return of SVG.parse yields the root")
     ctx.rule("R10.4", "dangling references are skipped")
     ctx.rule("R10.5", "skipping a faulty element keeps the context stack balanced")
+    ctx.rule("R10.8", "reify does not add to a length that render may have left unresolved")
+    ctx.rule("R10.7", "members only an SVG root has are used only on an SVG root")
+    ctx.rule("R10.6", "render methods treat the viewport size they are handed as optional and possibly unresolved")
     escape(ctx)
     recursion_guard(ctx)
     result_is_root(ctx)
     balanced(ctx)
+    optional_viewport(ctx)
+    root_members(ctx)
+    reify_unresolved(ctx)
 
 
 # --------------------------------------------------------------------------- R10.1
@@ -185,9 +203,23 @@ def recursion_guard(ctx):
 
 
 # --------------------------------------------------------------------------- R10.3
+def root_name(ctx, fn):
+    """the local that SVG.parse returns at its end"""
+    import collections
+
+    names = collections.Counter(r.value.id for r in ast.walk(fn) if isinstance(r, ast.Return) and isinstance(r.value, ast.Name))
+    # the element under construction may be returned early (a disabled document returns itself): the root is the other one,
+    # the local that is assigned from the element under an `if <root> is None`
+    cands = [nm for nm, _ in names.most_common() if any(
+        isinstance(i, ast.If) and isinstance(i.test, ast.Compare) and isinstance(i.test.left, ast.Name) and i.test.left.id == nm and isinstance(i.test.ops[0], ast.Is)
+        and any(isinstance(a, ast.Assign) and isinstance(a.targets[0], ast.Name) and a.targets[0].id == nm for a in i.body) for i in ast.walk(fn))]
+    ctx.need(bool(cands), "R10.3", "SVG.parse: the local holding the root (returned, and assigned under `if <root> is None`) not found")
+    return cands[0]
+
+
 def result_is_root(ctx):
     fn = ctx.fn("SVG.parse", "R10.3")
-    root_var = "root"
+    root_var = root_name(ctx, fn)
     n = 0
     for r in ast.walk(fn):
         if not isinstance(r, ast.Return):
@@ -196,15 +228,41 @@ def result_is_root(ctx):
         v = ast.unparse(r.value) if r.value is not None else "None"
         ok = v == root_var
         if not ok:
-            # allowed: returning the element itself when no root exists yet (it is the document)
-            p = getattr(r, "_parent", None)
-            while p is not None and p is not fn:
-                if isinstance(p, ast.If) and ast.unparse(p.test).replace(" ", "") in ("%sisNone" % root_var, "contextisNone") and any(r is x for s in p.body for x in ast.walk(s)):
-                    ok = True
-                p = getattr(p, "_parent", None)
+            # allowed: returning something else when no root exists yet (the element is the document / nothing was kept)
+            from ..flow import dominated as _dom
+
+            def no_root(test, positive):
+                if isinstance(test, ast.Compare) and len(test.ops) == 1 and isinstance(test.left, ast.Name) and test.left.id in (root_var, "context") \
+                        and isinstance(test.comparators[0], ast.Constant) and test.comparators[0].value is None and isinstance(test.ops[0], (ast.Is, ast.IsNot)):
+                    return isinstance(test.ops[0], ast.Is) == positive
+                return False
+
+            ok = _dom(r, fn, no_root)
         ctx.ob("R10.3", "SVG.parse[return line-order %d]" % n, ok, "returns %s" % v, r.lineno,
                "returning a nested element instead of the root discards every sibling parsed so far and everything after it")
     ctx.need(n >= 2, "R10.3", "SVG.parse: returns not found")
+    # the root is established by the first element that is kept; a document whose outermost element is skipped (display:none,
+    # attributes in error, zero size, a bare <style>) reaches the end without one.  The final return must not hand back None.
+    from ..flow import dominated
+
+    ctx.need(isinstance(fn.body[-1], ast.Return) or (isinstance(fn.body[-1], ast.If) and fn.body[-1].orelse), "R10.3", "SVG.parse: does not end in a return")
+    last = sorted((r for r in ast.walk(fn) if isinstance(r, ast.Return) and isinstance(r.value, ast.Name) and r.value.id == root_var), key=lambda r: r.lineno)[-1]
+
+    def not_none(test, positive):
+        if isinstance(test, ast.Compare) and len(test.ops) == 1 and isinstance(test.left, ast.Name) and test.left.id == root_var \
+                and isinstance(test.comparators[0], ast.Constant) and test.comparators[0].value is None:
+            return isinstance(test.ops[0], ast.IsNot) == positive and isinstance(test.ops[0], (ast.Is, ast.IsNot))
+        if isinstance(test, ast.Name) and test.id == root_var:
+            return positive
+        if isinstance(test, ast.Call) and call_name(test) == "isinstance" and test.args and isinstance(test.args[0], ast.Name) and test.args[0].id == root_var:
+            return positive
+        return False
+
+    inits = [st for st in fn.body if isinstance(st, ast.Assign) and any(isinstance(t, ast.Name) and t.id == root_var for t in st.targets)]
+    may_start_none = not inits or any(isinstance(st.value, ast.Constant) and st.value.value is None or isinstance(st.value, ast.Name) for st in inits)
+    ok = (not may_start_none) or dominated(last.value, fn, not_none)
+    ctx.ob("R10.3", "SVG.parse[final return yields a tree]", ok, "`return %s` %s" % (root_var, "after a None test" if ok else "with no None test before it"), last.lineno,
+           "a document whose outermost element is skipped or not rendered leaves no root: the parse hands back None instead of a (possibly empty) document")
 
 
 # --------------------------------------------------------------------------- R10.5
@@ -234,3 +292,247 @@ def balanced(ctx):
     bad = [(k, c) for k, c in q if k in ("fall", "continue") and c != 1]
     ctx.ob("R10.5", "SVG.parse[end: one pop on every path, also the skip paths]", not bad, "paths (exit, pops): %s" % q, end[0].lineno,
            "an end event that leaves without popping makes every later sibling a child of the faulty element's parent chain")
+
+
+# --------------------------------------------------------------------------- R10.6
+def optional_viewport(ctx):
+    """SVG.parse hands every element's render() the size of the enclosing viewport as it has it: a number, None (an svg whose
+    viewBox is incomplete leaves its height unset) or a Length that could not be resolved (`2em` without a font size).  The
+    render methods agree on the idiom: the value read with kwargs.get(...) goes to Length.value(relative_length=...), which
+    keeps the length symbolic when the reference is missing.  Doing arithmetic on it directly is the deviant case: None gives
+    TypeError, two lengths of different unresolved units give ValueError, and neither is caught around s.render() in SVG.parse.
+    Accepted: the use is dominated by an isinstance(<value>, (int, float)) test, or sits in a try whose handlers take both
+    TypeError and ValueError."""
+    from ..flow import dominated
+    from ..model import parent
+
+    def numeric(name):
+        def atom_test(test, positive):
+            if positive and isinstance(test, ast.Call) and call_name(test) == "isinstance" and len(test.args) == 2 and isinstance(test.args[0], ast.Name) and test.args[0].id == name:
+                t = test.args[1]
+                names = [e.id for e in (t.elts if isinstance(t, ast.Tuple) else [t]) if isinstance(e, ast.Name)]
+                return bool(names) and set(names) <= {"int", "float"}
+            return False
+        return atom_test
+
+    both = lambda types: ALL in types or {"TypeError", "ValueError"} <= types
+
+    n_methods = n_uses = 0
+    for cname, ci in sorted(ctx.m.classes.items()):
+        fn = ci.methods.get("render")
+        if fn is None or fn.args.kwarg is None:
+            continue
+        kw = fn.args.kwarg.arg
+        dims = {}
+        for st in stmts_in(fn.body):
+            if isinstance(st, ast.Assign) and len(st.targets) == 1 and isinstance(st.targets[0], ast.Name) and isinstance(st.value, ast.Call) \
+                    and attr_chain(st.value.func) == [kw, "get"] and st.value.args and isinstance(st.value.args[0], ast.Constant) \
+                    and st.value.args[0].value in ("width", "height", "relative_length"):
+                dims[st.targets[0].id] = st.lineno
+        if not dims:
+            continue
+        n_methods += 1
+        bad = []
+        for node in ast.walk(fn):
+            if not (isinstance(node, ast.Name) and isinstance(node.ctx, ast.Load) and node.id in dims):
+                continue
+            p = parent(node)
+            arithmetic = isinstance(p, (ast.BinOp, ast.UnaryOp)) and not (isinstance(p, ast.UnaryOp) and isinstance(p.op, ast.Not)) \
+                or (isinstance(p, ast.Compare) and any(isinstance(o, (ast.Lt, ast.LtE, ast.Gt, ast.GtE)) for o in p.ops)) \
+                or (isinstance(p, ast.Call) and call_name(p) in ("sqrt", "abs", "float", "int", "min", "max", "pow", "hypot")) \
+                or (isinstance(p, ast.Attribute)) or (isinstance(p, ast.AugAssign) and p.value is node)
+            if not arithmetic:
+                continue
+            n_uses += 1
+            if not dominated(node, fn, numeric(node.id), both):
+                bad.append("`%s` in `%s` line %d" % (node.id, ast.unparse(p)[:50], node.lineno))
+        ctx.ob("R10.6", "%s.render[viewport size optional]" % cname, not bad, "; ".join(sorted(set(bad))[:3]) or "handed on to Length.value / used as a number only under a numeric test",
+               fn.lineno, "SVG.parse passes the enclosing viewport's size as it has it (None after an incomplete viewBox, an unresolved Length after `em` sizes); "
+               "arithmetic on it raises TypeError/ValueError, which nothing around s.render() catches: the parse aborts")
+    ctx.need(n_methods >= 8, "R10.6", "render methods reading the viewport size from their keyword arguments: %d found" % n_methods)
+
+
+# --------------------------------------------------------------------------- R10.7
+def root_members(ctx):
+    """The first element becomes the root whatever it is (a fragment whose outermost element is a g parses to a Group).  The id
+    table and the url lookup exist only on SVG; using them on the root needs `isinstance(root, SVG)` to dominate the use, or an
+    `except AttributeError` around it."""
+    from ..flow import dominated
+
+    fn = ctx.fn("SVG.parse", "R10.7")
+    root = root_name(ctx, fn)
+    svg = ctx.m.cls("SVG", "R10.7")
+    inherited = set()
+    for base in ctx.m.mro("SVG")[1:]:
+        ci = ctx.m.classes.get(base)
+        if ci is None:
+            continue
+        inherited |= set(ci.methods) | set(ci.getters)
+        for f in ci.methods.values():
+            for n in ast.walk(f):
+                if isinstance(n, ast.Attribute) and isinstance(n.ctx, ast.Store) and isinstance(n.value, ast.Name) and n.value.id == "self":
+                    inherited.add(n.attr)
+    own = set(svg.methods) | set(svg.getters)
+    for f in svg.methods.values():
+        for n in ast.walk(f):
+            if isinstance(n, ast.Attribute) and isinstance(n.ctx, ast.Store) and isinstance(n.value, ast.Name) and n.value.id == "self":
+                own.add(n.attr)
+    svg_only = own - inherited
+
+    def is_svg(test, positive):
+        return positive and isinstance(test, ast.Call) and call_name(test) == "isinstance" and len(test.args) == 2 and isinstance(test.args[0], ast.Name) and test.args[0].id == root \
+            and isinstance(test.args[1], ast.Name) and test.args[1].id == "SVG"
+
+    n = 0
+    uses = sorted((x for x in ast.walk(fn) if isinstance(x, ast.Attribute) and isinstance(x.value, ast.Name) and x.value.id == root and x.attr in svg_only),
+                  key=lambda x: (x.lineno, x.col_offset))
+    for node in uses:
+        if True:
+            n += 1
+            ok = dominated(node, fn, is_svg, lambda types: ALL in types or "AttributeError" in types)
+            ctx.ob("R10.7", "SVG.parse[%s.%s #%d]" % (root, node.attr, n), ok, "line %d" % node.lineno, node.lineno,
+                   "the root is whatever element came first; `%s` exists only on SVG, so on a document whose outermost element is not svg this raises AttributeError" % node.attr)
+    ctx.need(n >= 4, "R10.7", "uses of SVG-only members of the root in SVG.parse: %d found" % n)
+
+
+# --------------------------------------------------------------------------- R10.8
+def reify_unresolved(ctx):
+    """render() resolves a Length field with `.value(...)`, which hands the Length back unchanged when its context is missing
+    (`1em` without a font size, a percentage without a viewport: property C12).  Length + number raises ValueError for such
+    a unit (Length.__iadd__).  SVG.parse calls s.reify() right after s.render() with no handler around it, so a reify that
+    adds to such a field - directly, or by sending points through a matrix whose translation (Matrix.render: e, f) or whose
+    operand coordinates may still be lengths - aborts the parse of a document that merely uses em units.
+    Accepted: the statement is dominated by a test that the value is not a Length, or sits in a try that takes ValueError
+    (compute first, commit afterwards)."""
+    from ..flow import dominated
+    from ..excflow import Flow
+
+    m = ctx.m
+    flow = Flow(m)
+    iadd = ctx.fn("Length.__iadd__", "R10.8")
+    ctx.need("ValueError" in flow.may_raise("Length.__iadd__", iadd, "Length"), "R10.8", "Length.__iadd__ no longer raises ValueError for unresolved units (premise of the rule)")
+
+    def resolved_by_render(cname):
+        out = set()
+        for c in m.mro(cname):
+            ci = m.classes.get(c)
+            r = ci.methods.get("render") if ci else None
+            if r is None:
+                continue
+            for st in stmts_in(r.body):
+                if isinstance(st, ast.Assign) and len(st.targets) == 1:
+                    ch = attr_chain(st.targets[0])
+                    if ch and len(ch) == 2 and ch[0] == "self" and any(isinstance(c_, ast.Call) and isinstance(c_.func, ast.Attribute) and c_.func.attr == "value" for c_ in ast.walk(st.value)):
+                        out.add(ch[1])
+        return out
+
+    matrix_fields = resolved_by_render("Matrix")
+    ctx.need({"e", "f"} <= matrix_fields, "R10.8", "Matrix.render no longer resolves e and f with Length.value (premise of the rule)")
+    # the call site: s.reify() in SVG.parse outside any handler that takes ValueError
+    parse = ctx.fn("SVG.parse", "R10.8")
+    calls = [c for c in ast.walk(parse) if isinstance(c, ast.Call) and isinstance(c.func, ast.Attribute) and c.func.attr == "reify" and not c.args]
+    ctx.need(bool(calls), "R10.8", "SVG.parse: reify call not found")
+    unprotected = [c for c in calls if not dominated(c, parse, lambda t, p: False, lambda types: ALL in types or "ValueError" in types)]
+
+    def mentions_length_test(test, positive, what):
+        """`not isinstance(<what...>, Length)` / `not any(isinstance(v, Length) for v in (<what>, ...))` established"""
+        if positive:
+            return False
+        for c in ast.walk(test):
+            if isinstance(c, ast.Call) and call_name(c) == "isinstance" and len(c.args) == 2 and any(isinstance(x, ast.Name) and x.id == "Length" for x in ast.walk(c.args[1])):
+                src = ast.unparse(test)
+                if any(w in src for w in what):
+                    return True
+        return False
+
+    n = 0
+    for cname, ci in sorted(m.classes.items()):
+        fn = ci.methods.get("reify")
+        if fn is None or not any("render" in m.classes[c].methods for c in m.mro(cname) if c in m.classes):
+            continue
+        fields = resolved_by_render(cname)
+        alias = {"self.transform"}
+        for st in stmts_in(fn.body):
+            if isinstance(st, ast.Assign) and len(st.targets) == 1 and isinstance(st.targets[0], ast.Name) and ast.unparse(st.value) == "self.transform":
+                alias.add(st.targets[0].id)
+        sites = {}
+        for st in stmts_in(fn.body):
+            # (i) self.F += x / self.F = self.F + x
+            if isinstance(st, ast.AugAssign) and isinstance(st.op, (ast.Add, ast.Sub)):
+                ch = attr_chain(st.target)
+                if ch and len(ch) == 2 and ch[0] == "self" and ch[1] in fields:
+                    sites.setdefault(ch[1], []).append((st, ["self.%s" % ch[1]]))
+            if isinstance(st, ast.Assign):
+                for b in ast.walk(st.value):
+                    if isinstance(b, ast.BinOp) and isinstance(b.op, (ast.Add, ast.Sub)):
+                        for side in (b.left, b.right):
+                            for x in ast.walk(side):
+                                ch = attr_chain(x)
+                                if ch and len(ch) == 2 and ch[0] == "self" and ch[1] in fields:
+                                    sites.setdefault(ch[1], []).append((st, ["self.%s" % ch[1]]))
+            # (ii) <point or segment> *= <the shape's matrix>
+            mults = []
+            if isinstance(st, ast.AugAssign) and isinstance(st.op, ast.Mult) and ast.unparse(st.value) in alias and ast.unparse(st.target) not in alias:
+                mults.append(st)
+            if isinstance(st, (ast.Assign, ast.Expr, ast.Return)) and st.value is not None:
+                for b in ast.walk(st.value):
+                    if isinstance(b, ast.BinOp) and isinstance(b.op, ast.Mult) and ast.unparse(b.right) in alias and ast.unparse(b.left) not in alias:
+                        mults.append(st)
+            for x in mults:
+                sites.setdefault("points through the matrix", []).append((x, sorted(alias) + ["self.%s" % f for f in fields]))
+        for key, lst in sorted(sites.items()):
+            n += 1
+            bad = [st for st, what in lst if not dominated(st, fn, lambda t, p, what=what: mentions_length_test(t, p, what), lambda types: ALL in types or "ValueError" in types)]
+            ok = not bad or not unprotected
+            ctx.ob("R10.8", "%s.reify[%s]" % (cname, key), ok, "; ".join("line %d: %s" % (st.lineno, ast.unparse(st)[:50]) for st in bad[:3]), fn.lineno,
+                   "render leaves a length it cannot resolve (em/ex, % without a viewport) as a Length; adding to it raises ValueError, which nothing between "
+                   "reify and SVG.parse catches: a document using such units under a translation aborts when reify=True (the default)")
+    ctx.need(n >= 7, "R10.8", "reify statements that add to render-resolved lengths or map points through the matrix: %d found" % n)
+    # everything else SVG.parse calls on the new element (render, is_degenerate, ...) and what those reach through self:
+    # mapping a point through the element's matrix there has the same premise
+    elem_calls = sorted({c.func.attr for c in ast.walk(parse) if isinstance(c, ast.Call) and isinstance(c.func, ast.Attribute) and isinstance(c.func.value, ast.Name) and c.func.value.id == "s"
+                         and c.func.attr not in ("reify", "append", "parse")})
+    ctx.need("is_degenerate" in elem_calls and "render" in elem_calls, "R10.8", "SVG.parse: calls on the new element not found (%s)" % elem_calls)
+    seen = {}
+    for cname in ELEMENTS:
+        if cname not in m.classes:
+            continue
+        work = [mn for mn in elem_calls]
+        visited = set()
+        while work:
+            mn = work.pop()
+            if mn in visited:
+                continue
+            visited.add(mn)
+            f = None
+            owner = None
+            for c in m.mro(cname):
+                ci = m.classes.get(c)
+                if ci and (mn in ci.methods or mn in ci.getters):
+                    f = ci.methods.get(mn) or ci.getters.get(mn)
+                    owner = c
+                    break
+            if f is None:
+                continue
+            seen.setdefault("%s.%s" % (owner, mn), f)
+            for x in ast.walk(f):
+                if isinstance(x, ast.Attribute) and isinstance(x.value, ast.Name) and x.value.id == "self" and x.attr not in visited:
+                    work.append(x.attr)
+    k = 0
+    for qual, f in sorted(seen.items()):
+        alias = {"self.transform"}
+        for st in stmts_in(f.body):
+            if isinstance(st, ast.Assign) and len(st.targets) == 1 and isinstance(st.targets[0], ast.Name) and ast.unparse(st.value) == "self.transform":
+                alias.add(st.targets[0].id)
+        sites = []
+        for st in stmts_in(f.body):
+            if isinstance(st, ast.AugAssign) and isinstance(st.op, ast.Mult) and ast.unparse(st.value) in alias and ast.unparse(st.target) not in alias:
+                sites.append(st)
+            elif isinstance(st, (ast.Assign, ast.Expr, ast.Return)) and st.value is not None and any(
+                    isinstance(b, ast.BinOp) and isinstance(b.op, ast.Mult) and ast.unparse(b.right) in alias and ast.unparse(b.left) not in alias for b in ast.walk(st.value)):
+                sites.append(st)
+        k += 1
+        bad = [st for st in sites if not dominated(st, f, lambda t, p, what=sorted(alias): mentions_length_test(t, p, what), lambda types: ALL in types or "ValueError" in types)]
+        ctx.ob("R10.8", "%s[reached from SVG.parse: no point through the matrix]" % qual, not bad, "; ".join("line %d: %s" % (st.lineno, ast.unparse(st)[:50]) for st in bad[:3]), f.lineno,
+               "a point sent through the element's matrix adds the translation, which may be an unresolved length (translate(1em,0)): ValueError out of SVG.parse", sample=False)
+    ctx.need(k >= 10, "R10.8", "functions reached from the calls SVG.parse makes on a new element: %d" % k)
